@@ -371,6 +371,22 @@ func (bc *boundsCtx) geZero(e *Term, depth int) *Term {
 		if iv.hi.Sign() < 0 {
 			return False
 		}
+		// common factor: g*S + c >= 0 over the integers iff S + floor(c/g) >= 0 (valid because the value is
+		// known not to wrap); e.g. 10^9*a - 10^9*b - 1 >= 0 becomes a - b - 1 >= 0
+		g := new(big.Int)
+		for _, id := range lf.ids {
+			g.GCD(nil, nil, g, new(big.Int).Abs(lf.coef[id]))
+		}
+		if g.Cmp(big1) > 0 {
+			n := &linForm{ids: lf.ids, coef: map[int]*big.Int{}, atoms: lf.atoms}
+			for id, k := range lf.coef {
+				n.coef[id] = new(big.Int).Quo(k, g)
+			}
+			q, m := new(big.Int).DivMod(lf.c, g, new(big.Int)) // Euclidean: m >= 0, so q is the floor
+			_ = m
+			n.c = q
+			lf = n
+		}
 	}
 	if len(lf.ids) > 0 && lf.coef[lf.ids[0]].Sign() < 0 {
 		// e >= 0  ==  not (-e-1 >= 0)
@@ -388,9 +404,6 @@ func normalizeComparisons(f *Term) *Term {
 	var conj []*Term
 	flattenConj(f, &conj)
 	bc, sources := collectBounds(conj)
-	if len(bc.b) == 0 {
-		return f
-	}
 	memo := map[int]*Term{}
 	var rw func(t *Term) *Term
 	rw = func(t *Term) *Term {
